@@ -1,5 +1,5 @@
 check('C08', 'model_checking',
       'Engine.tla evaluates Sat(row, criteria) itself (EQ/NE/LT/LE/GT/GE/IN/NOT_IN on an int and a string tag, HAVING/NOT_HAVING on an int-array tag, AND/OR pairs, time and series restrictions); -simulate behaviours vary dataset split, flush and merge states; at every QueryAll step each criteria query is sent over gRPC and must return exactly the spec-selected rows; the same behaviours run with no index rule and with inverted index rules on the filtered tags.',
-      'Measure engine only; skipping (bloom/dictionary) indexes and trace-id filters belong to stream/trace which are not bound yet; MATCH out of scope.',
+      'Measure (none / inverted) and stream (none / inverted / skipping; one and two shards) engines; literal lists are also sent with repeated elements; trace-id filters (trace engine) not bound; MATCH out of scope.',
       'TLA+/TLC as criteria oracle + TLC-generated behaviours replayed through the public gRPC API under different index configurations',
       'Engine', 'DESIGN.md §5 C08, §12')
